@@ -1220,3 +1220,22 @@ def r_nstring_cmp(ctx, toks):
                 i += 3; fire(ctx, 'string-compare'); continue
         out.append(t); i += 1
     return out
+
+def r_ctor_decl(ctx, toks):
+    """Cls name(args);  ->  Cls name = mk_Cls_<argc>(args);   (direct initialisation of a class-typed local)"""
+    out = []; i = 0; n = len(toks)
+    classes = ctx.unit.get('classes', ())
+    while i < n:
+        t = toks[i]
+        prev = out[-1].t if out else '{'
+        if t.k == 'id' and t.t in classes and prev in (';', '{', '}') and i + 2 < n and toks[i + 1].k == 'id' and toks[i + 2].t == '(':
+            e = match_close(toks, i + 2)
+            if e + 1 < n and toks[e + 1].t == ';':
+                argc = len(split_args(toks[i + 3:e]))
+                name = 'mk_%s_%d' % (t.t, argc)
+                if name in ctx.sigs:
+                    out.extend([t, toks[i + 1], P('='), Tok('id', name, ' '), P('(', '')]); out.extend(toks[i + 3:e]); out.append(P(')', ''))
+                    ctx.env[toks[i + 1].t] = (t.t, False)
+                    i = e + 1; fire(ctx, 'ctor-decl'); continue
+        out.append(t); i += 1
+    return out
